@@ -9,3 +9,4 @@ func (x *runner) runPatchC07() {}
 func (x *runner) runBatchC07() {}
 func (x *runner) runQueryC09() {}
 func (x *runner) runEnvelopes() {}
+func (x *runner) runQueryDecK(int) {}
